@@ -20,7 +20,7 @@ from typing import Annotated, Tuple
 import numpy as np
 import xarray as xr
 
-from common import (POSITIONS, RULES, Layout, build_grid, dec_arr, dyadic, dyadic_array, enc_arr, enc_grid, enc_kw,
+from common import (POSITIONS, RULES, Layout, build_grid, dec_arr, dyadic, dyadic_array, enc_arr, enc_grid, enc_kw, fillv,
                     enc_rat, exc_kind, frac, grid_axes_for_driver, pos_len)
 
 RULE = ("random signatures (1-3 inputs, 0-2 outputs, 1-2 dummy axes per argument, dummy names a/b/c), random "
@@ -53,9 +53,9 @@ def gen_case(rng, tier, i):
         order = rng.sample(dummies, k)
         outs.append([[d, rng.choice(list(layout.axis(bind[d])["coords"]))] for d in order])
     bw = {d: [rng.randint(0, 2), rng.randint(0, 2)] for d in dummies if rng.random() < 0.7}
-    opts = {"boundary": rng.choice(RULES), "fill_value": dyadic(rng)}
+    opts = {"boundary": rng.choice(RULES), "fill_value": fillv(rng)}
     how = rng.choice(["decorator", "call", "both", "apply"])
-    other = {"boundary": rng.choice(RULES), "fill_value": dyadic(rng),
+    other = {"boundary": rng.choice(RULES), "fill_value": fillv(rng),
              "boundary_width": {d: [rng.randint(0, 2), rng.randint(0, 2)] for d in bw}}
     data = []
     for k, arg in enumerate(ins):
